@@ -10,8 +10,9 @@ Pass 3 (sample, see c08.py): the real CLI in a subprocess on real files.
 
 Resource bound of G (harness-side instrumentation, nothing in /repo is touched): a text that makes the assembler
 compile more than MAX_STMTS statements (counting `.repeat`/`.include` multiplicity), run a `.repeat` of more than
-MAX_STMTS iterations, shift by more than MAX_SHIFT bits, build an integer of more than MAX_BITS bits or nest
-includes deeper than MAX_INCLUDE is *out of domain*: it is counted, never judged.
+MAX_STMTS iterations, shift by more than MAX_SHIFT bits, build an integer of more than MAX_BITS bits, nest
+includes deeper than MAX_INCLUDE, write an expression with more than MAX_OPERATORS operators or align to more than
+MAX_ALIGN bytes is *out of domain*: it is counted, never judged.
 """
 import io
 import os
@@ -26,6 +27,8 @@ MAX_STMTS = 4000
 MAX_SHIFT = 4096
 MAX_BITS = 1 << 20
 MAX_INCLUDE = 3
+MAX_OPERATORS = 64       # operators in one expression
+MAX_ALIGN = 65536
 ROOT = "/c08"            # virtual directory of the in-memory file system
 BANNER = "An unexpected internal compiler error happened"
 
@@ -84,6 +87,39 @@ def _install():
         return orig_rep(state, count, body)
     rep.fn = repeat
 
+    al = metacommands[".align"]
+    orig_al = al.fn
+
+    def align(state, count):
+        if isinstance(count, int) and count > MAX_ALIGN:
+            raise WorkLimit("align-size")
+        return orig_al(state, count)
+    al.fn = align
+
+    pexpr = m["parser"].expression
+    orig_expr = pexpr.fn
+
+    def expression(ctx, **kw):
+        tree = orig_expr(ctx, **kw)
+        n, stack = 0, [tree]
+        while stack:
+            t = stack.pop()
+            d = getattr(t, "__dict__", None)
+            if not d:
+                continue
+            k = 0
+            for name in ("lhs", "rhs", "operand"):
+                if name in d:
+                    stack.append(d[name])
+                    k = 1
+            if "expr" in d:
+                stack.append(d["expr"])
+            n += k
+            if n > MAX_OPERATORS:
+                raise WorkLimit("expression-size")
+        return tree
+    pexpr.fn = expression
+
     ops = m["operators"]
     wait = m["deferred"].wait
     BaseDeferred = m["deferred"].BaseDeferred
@@ -131,7 +167,10 @@ def abs_case(case):
     return files, fs
 
 
-class RealMissFS(impl.FakeFS):
+_BaseFS = impl.FakeFS
+
+
+class RealMissFS(_BaseFS):
     """FakeFS, except that a path it does not know goes to the real open(): under the non-existent directory
     ROOT that is FileNotFoundError for ordinary names, and whatever the OS / CPython really raise for names with
     NUL characters, lone surrogates, over-long components ... (part of what the assembler must survive)."""
@@ -139,7 +178,7 @@ class RealMissFS(impl.FakeFS):
     def open(self, path, mode="r", *a, **k):
         key = path if path in self.files else os.path.normpath(path)
         if key in self.files:
-            return impl.FakeFS.open(self, path, mode, *a, **k)
+            return _BaseFS.open(self, path, mode, *a, **k)
         import builtins
         return builtins.open(path, mode, *a, **k)
 
